@@ -5,7 +5,7 @@ import numpy as np
 from hypothesis import strategies as st
 
 from vlib import gens
-from vlib.core import Prop, Sub, Violation, calling, check
+from vlib.core import unchanged, Prop, Sub, Violation, calling, check
 from vlib.oracles import bvls, lp_dist, _linprog
 from vlib.systems import NOMINAL_RANGE, Sys, matrix_system, target_rows
 
@@ -56,7 +56,8 @@ def run_model(sv, B, W, model, entry, **opt):
 
     if entry == "estimator":
         est = sv.make_estimator(w=(None if W is None else np.asarray(W, dtype=float)))
-        X, Bp = est.fit(B, model=model, **opt)
+        with unchanged("model", estimator=est):
+            X, Bp = est.fit(B, model=model, **opt)
         return np.asarray(X), np.asarray(Bp)
     Wa = None if W is None else np.asarray(W, dtype=float)
     if model == "excitation":
